@@ -15,11 +15,28 @@ variable {α : Type} [Arith α]
 def normalizedForBounds (cs : List (Constraint α)) : Option (List (Constraint α)) :=
   cs.foldr (fun c acc => do
     let rest ← acc
-    let l ← Exp.flattenF Lin.flattenFuel c.lhs
-    if c.isAssert then pure ({ c with lhs := Exp.simplify l } :: rest)
+    let l ← Lin.normalizeExp c.lhs
+    if c.isAssert then pure ({ c with lhs := l } :: rest)
     else do
-      let r ← Exp.flattenF Lin.flattenFuel c.rhs
-      pure ({ c with lhs := Exp.simplify l, rhs := Exp.simplify r } :: rest)) (some [])
+      let r ← Lin.normalizeExp c.rhs
+      pure ({ c with lhs := l, rhs := r } :: rest)) (some [])
+
+open Arith in
+/-- `BoundsAnalyzer::enforceable` (fix cce0e38): when the analysis proved the model infeasible — a contradiction
+froze it, or an integer variable is left without an integral point — the inferred ranges are dropped (nothing
+would enforce them) and the declared ones are used. -/
+def enforceable (an : Analyzer α) (domain : List (DomVar α)) : Analyzer α :=
+  let emptyIntegerRange := domain.any fun d =>
+    match d.ty with
+    | .int _ _ =>
+      match AList.get? an.variableBounds d.name with
+      | some b => Arith.gt (ceil (sub b.lower an.tolerance)) (floor (add b.upper an.tolerance))
+      | none => false
+    | _ => false
+  if an.detectedInfeasible || emptyIntegerRange then
+    { Analyzer.fromDomain domain an.tolerance with
+      detectedInfeasible := an.detectedInfeasible, reachedIterationLimit := an.reachedIterationLimit }
+  else an
 
 def toLinBounds (vb : List (String × Bounds α)) : Lin.BoundsMap α :=
   vb.map fun (n, b) => (n, ⟨b.lower, b.upper⟩)
@@ -29,7 +46,7 @@ def linearize (m : Model α) (tol : α) (maxSteps : Nat) : Except Lin.LinErr (Li
   match normalizedForBounds m.constraints with
   | none => .error .fuel
   | some cs =>
-    let an := Analyzer.analyze m.domain cs tol maxSteps
+    let an := enforceable (Analyzer.analyze m.domain cs tol maxSteps) m.domain
     let domain := Analyzer.applyToDomain an m.domain
     Lin.linearizeWith m (toLinBounds an.variableBounds) domain
 
